@@ -18,6 +18,7 @@ import (
 	"encoding/json"
 	"fmt"
 	"os"
+	"os/exec"
 	"sort"
 	"strconv"
 	"strings"
@@ -233,6 +234,128 @@ func implFormat(pat string, t int64) string {
 	return guardS(func() string { return dateutil.NewDateFormat(pat).FormatTime(time.UnixMilli(t).UTC()) })
 }
 
+// ---------------------------------------------------------------- histories (stage D)
+
+// one call of a public helper; slot = index into slotName for the per-instant helpers,
+// -1 for GetYmdTime (argument: the date string of t), -2 for the shared DateFormat object,
+// -3/-4/-5 for the clock-reading TimeStampNow / YmdNow / GetDateUnitNow
+type hcall struct {
+	Slot int   `json:"slot"`
+	T    int64 `json:"t"`
+}
+
+var histFormat = dateutil.NewDateFormat("y-m-d H:M:S.s")
+
+func (c hcall) name() string {
+	switch c.Slot {
+	case -1:
+		return "GetYmdTime"
+	case -2:
+		return "DateFormat.FormatTime"
+	case -3:
+		return "TimeStampNow"
+	case -4:
+		return "YmdNow"
+	case -5:
+		return "GetDateUnitNow"
+	case slotWIdx, slotWIdx + 1:
+		return "WeekDay"
+	}
+	return slotName[c.Slot]
+}
+
+// run performs the call on the implementation
+func (c hcall) run() string {
+	t := c.T
+	switch c.Slot {
+	case 0:
+		return guardS(func() string { return dateutil.YYYYMMDD(t) })
+	case 1:
+		return guardS(func() string { return dateutil.DateTime(t) })
+	case 2:
+		return guardS(func() string { return dateutil.TimeStamp(t) })
+	case 3:
+		return guardS(func() string { return dateutil.Ymdhms(t) })
+	case 4:
+		return guardS(func() string { return dateutil.HHMMSS(t) })
+	case 5:
+		return guardS(func() string { return dateutil.HHMM(t) })
+	case slotWIdx, slotWIdx + 1:
+		return guardS(func() string { return dateutil.WeekDay(t) })
+	case 8:
+		return guardI(func() int64 { return dateutil.GetDateUnit(t) })
+	case 9:
+		return guardI(func() int64 { return dateutil.GetMinUnit(t) })
+	case 10:
+		return guardI(func() int64 { return dateutil.GetFiveMinUnit(t) })
+	case -1:
+		return guardI(func() int64 { return dateutil.GetYmdTime(time.UnixMilli(t).UTC().Format("20060102")) })
+	case -2:
+		return guardS(func() string { return histFormat.FormatTime(time.UnixMilli(t).UTC()) })
+	case -3:
+		return guardS(func() string { return dateutil.TimeStampNow() })
+	case -4:
+		return guardS(func() string { return dateutil.YmdNow() })
+	case -5:
+		return guardI(func() int64 { return dateutil.GetDateUnitNow() })
+	}
+	return "?"
+}
+
+// want: what the standard library says the call returns (in-century instants); "" = not checked
+func (c hcall) want() string {
+	t := c.T
+	if c.Slot <= -3 {
+		return ""
+	}
+	if t < baseMs || t >= baseMs+nDays*dayMs {
+		return ""
+	}
+	switch c.Slot {
+	case -1:
+		return strconv.FormatInt(t-(t-baseMs)%dayMs, 10)
+	case -2:
+		return time.UnixMilli(t).UTC().Format("2006-01-02 15:04:05.000")
+	case slotWIdx:
+		return stdHelpers(t)[slotWIdx+1]
+	}
+	return stdHelpers(t)[c.Slot]
+}
+
+// clockOK: the clock-reading variants must render an instant of the call window
+func clockOK(c hcall, got string, before, after int64) bool {
+	for t := before; t <= after; t++ {
+		std := stdHelpers(t)
+		switch c.Slot {
+		case -3:
+			if got == std[slotTS] {
+				return true
+			}
+		case -4:
+			if got == std[0] {
+				return true
+			}
+		case -5:
+			if got == std[8] {
+				return true
+			}
+		}
+	}
+	return false
+}
+
+// runInChild runs a history in a fresh process (clean package state) and returns its last answer.
+func runInChild(seq []hcall) (string, bool) {
+	b, _ := json.Marshal(seq)
+	cmd := exec.Command(os.Args[0])
+	cmd.Env = append(os.Environ(), "C19_HIST_CHILD="+string(b))
+	out, err := cmd.Output()
+	if err != nil {
+		return "", false
+	}
+	return strings.TrimSuffix(string(out), "\n"), true
+}
+
 // ---------------------------------------------------------------- main
 
 type expect struct {
@@ -244,6 +367,7 @@ type expect struct {
 	impl   []string
 	propOK []bool // slot-wise: did the property hold on the implementation for this input
 	anyOf  bool   // P lines with several candidate `now`: handled by group
+	onlySlot int  // history lines: compare just this slot (1-based; 0 = all)
 	group  int
 }
 
@@ -251,6 +375,18 @@ func main() {
 	time.Local = time.UTC
 	os.Setenv("TZ", "UTC")
 	dateutil.SetDelta(0)
+	if h := os.Getenv("C19_HIST_CHILD"); h != "" {
+		var seq []hcall
+		if err := json.Unmarshal([]byte(h), &seq); err != nil {
+			os.Exit(2)
+		}
+		last := ""
+		for _, c := range seq {
+			last = c.run()
+		}
+		fmt.Println(last)
+		return
+	}
 
 	env, rep := vh.Parse("C19")
 	rng := vh.NewRng(env.Seed)
@@ -258,6 +394,8 @@ func main() {
 		"B: days (quick: every 7th + firsts/ends of months + Feb 28/29 + first/last week; thorough: every day) x times of day " +
 		"{0,5,45 ms, 11:59:59.999, 12:00:00.000, 23:59:59.999, unit boundaries, random}; every exported helper vs time.Format/arithmetic and vs the model; " +
 		"non-trivial = instant inside the century; distinct = distinct instants. " +
+		"D: histories — seeded random sequences of calls mixing every public helper (and a shared DateFormat, and the clock-reading variants) over a pool of instants " +
+		"(same second, adjacent seconds, same minute/day, far apart; interleaved, repeated) plus all ordered pairs of helpers on two instants; each answer vs the time package and vs the model. " +
 		"C: patterns over the letters ymdHMSs with random literal separators (ASCII, digits, non-ASCII), full and partial, x instants; " +
 		"non-trivial = pattern with at least one field letter; distinct = distinct (pattern, instant)."
 
@@ -508,6 +646,157 @@ func main() {
 		}
 	}
 
+	// ------------------------------------------------------------ D: histories
+	// The helpers are specified as functions of the instant; a sequence of calls must therefore
+	// return, call by call, what each call returns alone.  Seeded random sequences mix every
+	// public helper over a small pool of instants (same second, adjacent seconds, same minute,
+	// same day, far apart), interleaved and repeated.
+	shrinks := 0
+	runHistory := func(seq []hcall, tag string) {
+		for i, c := range seq {
+			before := time.Now().UnixMilli()
+			got := c.run()
+			after := time.Now().UnixMilli()
+			rep.Evaluations++
+			rep.Count("D:call-" + c.name())
+			if c.Slot <= -3 {
+				if !clockOK(c, got, before, after) {
+					rep.Fail("property", c.name()+":not-the-current-instant", fmt.Sprintf("%s() = %q is not the rendering of any instant of the call window [%d,%d]", c.name(), got, before, after),
+						map[string]interface{}{"op": "S", "sequence": seq[:i+1]})
+				}
+				continue
+			}
+			want := c.want()
+			if want != "" && got != want {
+				// is it the call, or the calls before it?  Hidden state cannot be reset in this process,
+				// so suffixes of the history are re-run in a fresh process: the shortest one whose last
+				// answer is still wrong is the replay (length 1 = the call is wrong on its own).
+				key := c.name() + ":wrong-in-call-sequence"
+				short := seq[:i+1]
+				if shrinks < 8 {
+					shrinks++
+					for n := 1; n <= i+1 && n <= 48; n++ {
+						if r, ok := runInChild(seq[i+1-n : i+1]); ok && r != want {
+							short = seq[i+1-n : i+1]
+							break
+						}
+					}
+				}
+				if len(short) == 1 {
+					key = c.name() + ":differs-from-standard-calendar"
+				}
+				names := make([]string, len(short))
+				for j, d := range short {
+					names[j] = fmt.Sprintf("%s(%d)", d.name(), d.T)
+				}
+				rep.Fail("property", key, fmt.Sprintf("after %s the call returns %q, the standard library (and the same call alone) gives %q",
+					vh.Clip(strings.Join(names, "; "), 400), got, want),
+					map[string]interface{}{"op": "S", "sequence": short, "calls": names, "position_in_history": i, "stage": tag})
+			}
+			// the model, per call
+			switch c.Slot {
+			case -2:
+				add(fmt.Sprintf("F %s %d", cps("y-m-d H:M:S.s"), c.T), expect{want: []string{cps(got)}, key: "DateFormat.format:history",
+					rep: map[string]interface{}{"op": "S", "sequence": seq[:i+1]}})
+			case -1:
+				if want != "" {
+					add("Y "+cps(time.UnixMilli(c.T).UTC().Format("20060102")), expect{want: []string{got}, key: "GetYmdTime:history",
+						rep: map[string]interface{}{"op": "S", "sequence": seq[:i+1]}})
+				}
+			default:
+				impl := make([]string, nSlots)
+				ok := make([]bool, nSlots)
+				for j := range impl {
+					impl[j] = "-"
+				}
+				sl := c.Slot
+				if sl == slotWIdx {
+					sl = slotWIdx + 1
+				}
+				impl[sl] = got
+				ok[sl] = want == "" || got == want
+				add(fmt.Sprintf("H %d", c.T), expect{helper: true, impl: impl, propOK: ok, key: "helper:history", onlySlot: sl + 1,
+					rep: map[string]interface{}{"op": "S", "sequence": seq[max(0, i-5) : i+1]}})
+			}
+		}
+	}
+	genHistory := func(n int) []hcall {
+		// pool of instants around one second of the century
+		d := rng.Range(0, nDays-1)
+		s0 := baseMs + d*dayMs + rng.Range(0, 86399)*1000
+		if rng.Chance(15) { // last second of a day / month / year
+			s0 = baseMs + d*dayMs + 86399000
+		}
+		pool := []int64{s0, s0 + rng.Range(1, 999), s0 + rng.Range(1, 999), s0 + 999, s0 + 1000, s0 + 1000 + rng.Range(0, 999), s0 - 1, s0 - 1000,
+			s0 + 60000, s0 - rng.Range(0, 59)*1000, s0 + 3600000, baseMs + d*dayMs, baseMs + d*dayMs + rng.Range(0, dayMs-1),
+			baseMs + rng.Range(0, nDays-1)*dayMs + (s0-baseMs)%dayMs, baseMs + rng.Range(0, nDays-1)*dayMs + rng.Range(0, dayMs-1)}
+		var ps []int64
+		for _, t := range pool {
+			if t >= baseMs && t < endMs {
+				ps = append(ps, t)
+			}
+		}
+		if rng.Chance(20) {
+			ps = append(ps, baseMs-1, baseMs-rng.Range(1, dayMs)) // before the century: constant answers, model only
+		}
+		slots := []int{0, 1, 2, 3, 4, 5, slotWIdx, 8, 9, 10, -1, -2}
+		hot := []int{slots[rng.Intn(len(slots))], slots[rng.Intn(len(slots))], 1, 3} // a few helpers dominate a history
+		seq := make([]hcall, n)
+		cur := ps[rng.Intn(len(ps))]
+		for i := range seq {
+			switch {
+			case rng.Chance(45): // stay on the instant, change the helper
+			case rng.Chance(50): // same second or neighbours (front of the pool)
+				cur = ps[rng.Intn(min(8, len(ps)))]
+			default:
+				cur = ps[rng.Intn(len(ps))]
+			}
+			sl := slots[rng.Intn(len(slots))]
+			if rng.Chance(40) {
+				sl = hot[rng.Intn(len(hot))]
+			}
+			if rng.Chance(2) {
+				sl = -3 - rng.Intn(3)
+			}
+			seq[i] = hcall{sl, cur}
+		}
+		return seq
+	}
+	if !replayMode {
+		nhist, hlen := 80, 300
+		if env.Thorough {
+			nhist, hlen = 1500, 400
+		}
+		// every ordered pair and triple of helpers on (t1, t2, t2) and (t1, t1, t2) patterns: the shortest histories
+		{
+			slots := []int{0, 1, 2, 3, 4, 5, slotWIdx, 8, 9, 10, -1, -2}
+			t1 := baseMs + 8888*dayMs + 45296789
+			for _, t2 := range []int64{t1 + 1, t1 + 211, t1 + 1000, t1 + 61000, t1 + dayMs} {
+				var seq []hcall
+				for _, a := range slots {
+					for _, b := range slots {
+						seq = append(seq, hcall{a, t1}, hcall{b, t2}, hcall{a, t2}, hcall{b, t1})
+					}
+				}
+				runHistory(seq, "pairs")
+				rep.Case(fmt.Sprintf("hist:pairs:%d", t2-t1), true)
+			}
+		}
+		for h := 0; h < nhist; h++ {
+			seq := genHistory(hlen)
+			rep.Case(fmt.Sprintf("hist:%d:%d:%d", env.Seed, h, seq[0].T), true)
+			rep.Count("D:histories")
+			if h == 0 {
+				names := []string{}
+				for _, c := range seq[:8] {
+					names = append(names, fmt.Sprintf("%s(%d)", c.name(), c.T))
+				}
+				rep.Sample(map[string]interface{}{"history_prefix": names})
+			}
+			runHistory(seq, "random")
+		}
+	}
+
 	// ------------------------------------------------------------ replay mode
 	for _, c := range replayCases {
 		switch c["op"] {
@@ -519,6 +808,14 @@ func main() {
 			checkMalformed(c["pattern"].(string), c["text"].(string))
 		case "Y":
 			checkYmd(c["s"].(string), "replay")
+		case "S":
+			var seq []hcall
+			if raw, err := json.Marshal(c["sequence"]); err == nil {
+				json.Unmarshal(raw, &seq)
+			}
+			for k := 0; k < 3; k++ { // the state left by earlier calls is part of a history: run it more than once
+				runHistory(seq, "replay")
+			}
 		case "C":
 			z := int64(c["z"].(float64))
 			tm := time.Unix(z*86400, 0).UTC()
@@ -581,6 +878,9 @@ func main() {
 				continue
 			}
 			for s := 0; s < nSlots; s++ {
+				if e.onlySlot != 0 && s != e.onlySlot-1 {
+					continue
+				}
 				if parts[s] == e.impl[s] || !e.propOK[s] {
 					// equal, or already reported as a failure of the property on this very input
 					continue
